@@ -1070,12 +1070,18 @@ fn cross_block_faults(ctx: &Ctx, rng: &mut Rng, s: &SizeInfo, faults: &mut Vec<F
     let b0 = rng.below(s.blocks - 1);
     let n_blocks = rng.range(2, (s.blocks - b0).min(3));
     let target = b0 + rng.range(1, n_blocks - 1).max(1).min(n_blocks - 1); // a block after the first of the group
+    let shared: Option<Vec<u8>> = if rng.chance(1, 2) { Some((0..idxs.len()).map(|_| rng.nonzero_byte()).collect()) } else { None };
     for b in b0..b0 + n_blocks {
         let pos = s.block_positions(b);
-        for i in &idxs {
-            // positions counted from the END of the block (so they coincide as polynomial degrees)
+        for (ii, i) in idxs.iter().enumerate() {
+            // positions counted from the END of the block (so they coincide as polynomial degrees); with shared
+            // values the blocks' syndrome vectors are identical before the crafted part is added
             let p = pos[pos.len() - 1 - *i];
-            faults.push(Fault::new("cw_burst", Op::CwXor { pos: p as u32, mask: rng.nonzero_byte() }));
+            let mask = match &shared {
+                Some(m) => m[ii],
+                None => rng.nonzero_byte(),
+            };
+            faults.push(Fault::new("cw_burst", Op::CwXor { pos: p as u32, mask }));
         }
     }
     // the crafted part in one block of the group
@@ -1101,6 +1107,247 @@ fn cross_block_faults(ctx: &Ctx, rng: &mut Rng, s: &SizeInfo, faults: &mut Vec<F
         }
     }
     true
+}
+
+/// The EC codewords the crate's own encoder computes for `data` (None if it panics or returns a wrong length).
+fn real_ec(s: &SizeInfo, data: &[u8]) -> Option<Vec<u8>> {
+    if data.len() != s.n_data {
+        return None;
+    }
+    let size = s.size;
+    let d = data.to_vec();
+    match crate::exec::guard(move || datamatrix::errorcode::encode_error(&d, size)) {
+        Ok(ec) if ec.len() == s.n_ec() => Some(ec),
+        _ => None,
+    }
+}
+
+fn producer_data(p: &Producer, s: &SizeInfo) -> Option<Vec<u8>> {
+    match p {
+        Producer::Raw { data, .. } => Some(data.clone()),
+        Producer::Msg { msg, list, modes, macros, fnc1, eci } => match produce_msg(msg, list, *modes, *macros, *fnc1, *eci) {
+            Ok(Some((idx, d, _))) if idx == s.idx => Some(d),
+            _ => None,
+        },
+        _ => None,
+    }
+}
+
+/// Between two codewords. B is the codeword that differs from the sent codeword A in a few data codewords of one
+/// block (and therefore in nearly all EC codewords of that block: a minimum-distance neighbour when it is one data
+/// codeword). The medium overwrites a SUBSET of the positions where A and B differ with B's values: within the
+/// radius (subset size <= t: A must be restored although every wrong codeword "agrees" with another codeword),
+/// or beyond it (the received word lies between the two, nearer to B, or nearer to B with extra damage).
+/// The code is linear, so B - A is the encoder's own output for the data difference.
+fn toward_faults(rng: &mut Rng, s: &SizeInfo, in_radius: bool, faults: &mut Vec<Fault>) -> bool {
+    let t = s.t();
+    let b = rng.below(s.blocks);
+    let nd = s.block_data_len(b);
+    if nd == 0 || t == 0 {
+        return false;
+    }
+    let wd = match rng.below(6) {
+        0 => 2.min(nd),
+        1 => rng.range(1, 3.min(nd)),
+        _ => 1,
+    };
+    let mut delta = vec![0u8; s.n_data];
+    let mut diff: Vec<(usize, u8)> = Vec::new();
+    for i in rng.sample_distinct(nd, wd) {
+        let p = b + i * s.blocks;
+        let m = rng.nonzero_byte();
+        delta[p] = m;
+        diff.push((p, m));
+    }
+    let n_data_diff = diff.len();
+    let ec = match real_ec(s, &delta) {
+        Some(e) => e,
+        None => return false,
+    };
+    for (j, v) in ec.iter().enumerate() {
+        if *v != 0 {
+            diff.push((s.n_data + j, *v));
+        }
+    }
+    let total = diff.len();
+    let m = if in_radius {
+        if rng.chance(1, 2) { t } else { rng.range(1, t) }
+    } else {
+        match rng.below(4) {
+            0 => t + 1,
+            1 => total.saturating_sub(t).max(t + 1),          // exactly t away from B
+            2 => total.saturating_sub(t + 1).max(t + 1),      // just outside B's radius too
+            _ => rng.range(t + 1, total.max(t + 1)),
+        }
+    }
+    .min(total);
+    // which of the differing positions: the data ones first (usual), EC ones only, or any
+    let mut chosen: Vec<usize> = Vec::new();
+    match rng.below(4) {
+        0 => {
+            for i in rng.sample_distinct(total, m) {
+                chosen.push(i);
+            }
+        }
+        1 if total - n_data_diff >= m => {
+            for i in rng.sample_distinct(total - n_data_diff, m) {
+                chosen.push(n_data_diff + i);
+            }
+        }
+        _ => {
+            let nd_take = n_data_diff.min(m);
+            chosen.extend(0..nd_take);
+            let rest = m - nd_take;
+            let pool = total - n_data_diff;
+            if rng.chance(1, 2) {
+                // the leading EC codewords
+                chosen.extend((0..rest.min(pool)).map(|i| n_data_diff + i));
+            } else {
+                for i in rng.sample_distinct(pool, rest.min(pool)) {
+                    chosen.push(n_data_diff + i);
+                }
+            }
+        }
+    }
+    for i in chosen {
+        let (p, mask) = diff[i];
+        faults.push(Fault::new("cw_toward", Op::CwXor { pos: p as u32, mask }));
+    }
+    if !in_radius && rng.chance(1, 3) {
+        // extra damage elsewhere in the block
+        let extra = rng.range(1, t);
+        for p in pick_block_positions(rng, s, b, extra, Region::Both, PosPattern::Uniform) {
+            faults.push(value_fault(rng, ValKind::Subst, None, p));
+        }
+    }
+    true
+}
+
+/// Twin blocks: the same damage (same polynomial degrees, i.e. the same distance from the END of the block, and the
+/// same values) in two or more blocks, so that their syndrome vectors are IDENTICAL - what a physical burst of
+/// a uniform kind does to an interleaved symbol - optionally with one block differing in a single value, a
+/// missing or an additional error. Within the radius.
+fn twin_block_faults(rng: &mut Rng, s: &SizeInfo, faults: &mut Vec<Fault>) -> bool {
+    if s.blocks < 2 {
+        return false;
+    }
+    let t = s.t();
+    let nb_min = s.block_len(s.blocks - 1);
+    let v = if rng.chance(1, 3) { 1 } else { rng.range(1, t) };
+    let degs = rng.sample_distinct(nb_min, v);
+    let masks: Vec<u8> = if rng.chance(1, 3) { vec![rng.nonzero_byte(); v] } else { (0..v).map(|_| rng.nonzero_byte()).collect() };
+    let group: Vec<usize> = match rng.below(3) {
+        0 => (0..s.blocks).collect(),
+        1 => {
+            let a = rng.below(s.blocks - 1);
+            vec![a, a + 1]
+        }
+        _ => {
+            let n = rng.range(2, s.blocks);
+            let mut g = rng.sample_distinct(s.blocks, n);
+            g.sort();
+            g
+        }
+    };
+    let odd_one = if rng.chance(1, 3) { Some(*rng.pick(&group)) } else { None };
+    for b in group {
+        let pos = s.block_positions(b);
+        let mut list: Vec<(usize, u8)> = degs.iter().zip(masks.iter()).map(|(d, m)| (pos[pos.len() - 1 - *d], *m)).collect();
+        if odd_one == Some(b) {
+            match rng.below(3) {
+                0 => {
+                    let i = rng.below(list.len());
+                    list[i].1 ^= 1 << rng.below(8);
+                    if list[i].1 == 0 {
+                        list[i].1 = 1;
+                    }
+                }
+                1 if list.len() > 1 => {
+                    let i = rng.below(list.len());
+                    list.remove(i);
+                }
+                _ if list.len() < t => {
+                    let p = pos[rng.below(pos.len())];
+                    if !list.iter().any(|(q, _)| *q == p) {
+                        list.push((p, rng.nonzero_byte()));
+                    }
+                }
+                _ => {}
+            }
+        }
+        for (p, m) in list {
+            faults.push(Fault::new("cw_twin", Op::CwXor { pos: p as u32, mask: m }));
+        }
+    }
+    true
+}
+
+/// A foreign producer: the data part is fine, the EC part is what a plausible NON-conforming third-party encoder
+/// would have written - the blocks' EC codewords assigned to the wrong blocks (rotation: what naive striding
+/// does when the block lengths differ), written block after block instead of interleaved, reversed within each
+/// block, or computed over the data split into contiguous chunks instead of strided ones.
+/// Every variant consists of perfectly valid Reed-Solomon words in the WRONG places.
+fn foreign_ec_faults(rng: &mut Rng, s: &SizeInfo, data: &[u8], faults: &mut Vec<Fault>) -> bool {
+    let ec = match real_ec(s, data) {
+        Some(e) => e,
+        None => return false,
+    };
+    let bl = s.blocks;
+    let k = s.k;
+    let mut f = ec.clone();
+    let variant = if bl > 1 { rng.below(4) } else { 2 };
+    match variant {
+        0 => {
+            let r = if s.idx == 23 && rng.chance(1, 2) { 2 } else { rng.range(1, bl - 1) };
+            for b in 0..bl {
+                for j in 0..k {
+                    f[b + j * bl] = ec[(b + r) % bl + j * bl];
+                }
+            }
+        }
+        1 => {
+            for b in 0..bl {
+                for j in 0..k {
+                    f[b * k + j] = ec[b + j * bl];
+                }
+            }
+        }
+        2 => {
+            for b in 0..bl {
+                for j in 0..k {
+                    f[b + j * bl] = ec[b + (k - 1 - j) * bl];
+                }
+            }
+        }
+        _ => {
+            // contiguous chunks instead of strided blocks
+            let mut perm = vec![0u8; s.n_data];
+            let mut start = 0usize;
+            for b in 0..bl {
+                let len = s.block_data_len(b);
+                for i in 0..len {
+                    perm[b + i * bl] = data[start + i];
+                }
+                start += len;
+            }
+            match real_ec(s, &perm) {
+                Some(e) => f = e,
+                None => return false,
+            }
+        }
+    }
+    let mut any = false;
+    for j in 0..f.len() {
+        if f[j] != ec[j] {
+            faults.push(Fault::new("snd_foreign_ec", Op::CwSet { pos: (s.n_data + j) as u32, val: f[j] }));
+            any = true;
+        }
+    }
+    if any && rng.chance(1, 3) {
+        let w = bounded_weights(rng, s);
+        weighted_cw_faults(rng, s, &w, faults);
+    }
+    any
 }
 
 // ---------------- pixel-level fault construction ----------------
@@ -1343,7 +1590,11 @@ fn geometry_fault(rng: &mut Rng, s: &SizeInfo, faults: &mut Vec<Fault>) {
                 6 => 1,
                 _ => rng.range(0, 2 * w),
             };
-            Fault::new("geo_width_skew", Op::GeoWidth { w: nw as u32 })
+            if rng.chance(1, 12) {
+                Fault::new("geo_width_skew", Op::GeoWidthHuge { code: rng.below(crate::trace::N_HUGE_WIDTHS as usize) as u32 })
+            } else {
+                Fault::new("geo_width_skew", Op::GeoWidth { w: nw as u32 })
+            }
         }
         8 => Fault::new("geo_empty", Op::GeoEmpty),
         9 | 10 => Fault::new("geo_rot", Op::GeoRot { q: rng.range(1, 3) as u8 }),
@@ -1846,7 +2097,11 @@ fn beyond_radius_faults(ctx: &Ctx, rng: &mut Rng, s: &SizeInfo, faults: &mut Vec
                 burst_faults(rng, s, None, faults)
             }
         }
-        9 => burst_faults(rng, s, None, faults),
+        9 => {
+            if rng.chance(1, 2) || !toward_faults(rng, s, false, faults) {
+                burst_faults(rng, s, None, faults)
+            }
+        }
         10 => data_module_faults(ctx, rng, s, None, faults),
         11..=16 => {
             // aligned damage: a chosen set of syndromes stays consistent, the rest does not
@@ -1976,7 +2231,19 @@ fn gen_c03_faults(ctx: &Ctx, rng: &mut Rng, s: &SizeInfo, faults_out: &mut Vec<F
             let w = bounded_weights(rng, s);
             weighted_cw_faults(rng, s, &w, &mut faults);
         }
-        10 => burst_faults(rng, s, Some(s.t()), &mut faults),
+        10 => match rng.below(3) {
+            0 => burst_faults(rng, s, Some(s.t()), &mut faults),
+            1 => {
+                if !toward_faults(rng, s, true, &mut faults) {
+                    burst_faults(rng, s, Some(s.t()), &mut faults)
+                }
+            }
+            _ => {
+                if !twin_block_faults(rng, s, &mut faults) && !toward_faults(rng, s, true, &mut faults) {
+                    burst_faults(rng, s, Some(s.t()), &mut faults)
+                }
+            }
+        },
         11 => {
             // sparse locator polynomials: complete cosets of a multiplicative subgroup (plus a few free errors)
             let b = rng.below(s.blocks);
@@ -2034,6 +2301,14 @@ fn gen_c09(ctx: &Ctx, rng: &mut Rng, i: u64) -> Trace {
     let s = &SIZES[pick_size(rng, i, true)];
     let producer = producer_for_size(rng, s, 5);
     let mut faults = Vec::new();
+    if rng.chance(1, 40) {
+        if let Some(d) = producer_data(&producer, s) {
+            if foreign_ec_faults(rng, s, &d, &mut faults) {
+                return Trace { prop: "C09".into(), producer, faults };
+            }
+        }
+        faults.clear();
+    }
     beyond_radius_faults(ctx, rng, s, &mut faults);
     if s.blocks > 1 && rng.chance(1, 6) {
         faults.clear();
@@ -2058,6 +2333,14 @@ fn gen_c05(ctx: &Ctx, rng: &mut Rng, i: u64) -> Trace {
             // codeword damage of every density
             let s = &SIZES[pick_size(rng, i, true)];
             let producer = producer_for_size(rng, s, 10);
+            if rng.chance(1, 40) {
+                if let Some(d) = producer_data(&producer, s) {
+                    if foreign_ec_faults(rng, s, &d, &mut faults) {
+                        return Trace { prop: "C05".into(), producer, faults };
+                    }
+                }
+                faults.clear();
+            }
             beyond_radius_faults(ctx, rng, s, &mut faults);
             Trace { prop: "C05".into(), producer, faults }
         }
